@@ -937,6 +937,14 @@ theorem bal_ptrAssignEmb (st : St) (tid d c v : Nat) : bal (ptrAssignEmb st tid 
   · exact bal_append (bal_append (by simp [bal]) (bal_relP _ _ _ _)) (by simp [bal])
   · simp [bal]
 
+theorem bal_ptrLinkSole (st : St) (tid d c src : Nat) : bal (ptrLinkSole st tid d c src) = true := by
+  simp only [ptrLinkSole]
+  have hf : bal ((match st.slots src with | .blk _ => [Act.inc (tmpT tid) src] | _ => []) ++ [Act.takeE (tmpU tid) c d]) = true := by
+    split <;> simp [bal]
+  split
+  · exact bal_append (bal_append hf (bal_relP _ _ _ _)) (by simp [bal])
+  · exact hf
+
 theorem runT_append {tid : Nat} (a b : List Act) {s : St} :
     runT s tid (a ++ b) = (runT s tid a).bind (fun s1 => runT s1 tid b) := by
   induction a generalizing s with
@@ -1012,7 +1020,7 @@ theorem pre_shape (st : St) (tid : Nat) (op : ApiOp) :
   case pAssign d s => left; exact bal_ptrAssign _ _ _ _
   case pClear d => left; exact bal_relP _ _ _ _
   case pSwap a b => left; simp [bal]
-  case pLink d s => left; split <;> first | exact bal_ptrAssign _ _ _ _ | simp [bal]
+  case pLink d s => left; split <;> first | exact bal_ptrLinkSole _ _ _ _ _ | exact bal_ptrAssign _ _ _ _ | simp [bal]
   case pNext d => left; split <;> first | exact bal_ptrAssignEmb _ _ _ _ _ | simp [bal]
   case pNextOf d s => left; split <;> first | exact bal_ptrAssignEmb _ _ _ _ _ | simp [bal]
 
